@@ -125,6 +125,11 @@ impl EstablishProof {
             // Incorporate commitments and commitment scalars from proofs.
             .with(&state_proof_builder)
             .with(&close_state_proof_builder)
+            // Incorporate the commitment scalars that are revealed for the public values.
+            .with(&close_state_proof_builder.conjunction_commitment_scalars()[0])
+            .with(&close_state_proof_builder.conjunction_commitment_scalars()[1])
+            .with(&close_state_proof_builder.conjunction_commitment_scalars()[3])
+            .with(&close_state_proof_builder.conjunction_commitment_scalars()[4])
             // Incorporate transcript context.
             .with_bytes(&context.as_bytes())
             .finish();
@@ -173,6 +178,11 @@ impl EstablishProof {
             // Incorporate commitment and commitment scalars from proofs.
             .with(&self.state_proof)
             .with(&self.close_state_proof)
+            // Incorporate the commitment scalars that are revealed for the public values.
+            .with(&self.channel_id_commitment_scalar)
+            .with(&self.close_tag_commitment_scalar)
+            .with(&self.customer_balance_commitment_scalar)
+            .with(&self.merchant_balance_commitment_scalar)
             // Incorporate transcript context.
             .with_bytes(context.as_bytes())
             .finish();
@@ -434,6 +444,9 @@ impl PayProof {
             .with(&old_pay_token_proof_builder)
             .with(&customer_range_constraint_builder)
             .with(&merchant_range_constraint_builder)
+            // integrate the commitment scalars that are revealed for the old nonce and the close tag
+            .with(&old_pay_token_proof_builder.conjunction_commitment_scalars()[1])
+            .with(&close_state_proof_builder.conjunction_commitment_scalars()[1])
             // integrate context
             .with_bytes(context.as_bytes())
             .finish();
@@ -494,6 +507,9 @@ impl PayProof {
             .with(&self.old_pay_token_proof)
             .with(&self.customer_balance_proof)
             .with(&self.merchant_balance_proof)
+            // integrate the commitment scalars that are revealed for the old nonce and the close tag
+            .with(&self.old_nonce_commitment_scalar)
+            .with(&self.close_tag_commitment_scalar)
             // integrate context
             .with_bytes(context.as_bytes())
             .finish();
